@@ -187,14 +187,17 @@ class ScalarAngleOrValue(ApertureAttribute):
         if self.name in instance.__dict__:
             self._reset_lazyproperties(instance)
 
-        # if theta is not a Quantity, it is assumed to be in radians
+        # if theta is not a Quantity, it is assumed to be in radians;
+        # like the other scalar attributes it is stored as a Python
+        # float (float64) so that the derived geometry (e.g., the
+        # bounding box) is not computed in a narrower input precision
         if not isinstance(value, u.Quantity):
-            value <<= u.radian
+            value = float(value) << u.radian
         else:
             # copy so that the Quantity object is not shared with
             # another aperture (e.g., an indexed aperture and its
             # parent) or with the caller
-            value = value.copy()
+            value = value.astype(float)
         instance.__dict__[self.name] = value
 
     def _validate(self, value):
